@@ -14,8 +14,10 @@ Bare == [on |-> TRUE, codes |-> <<>>]
 Ign(ks) == [on |-> TRUE, codes |-> ks]
 T(line, span, code, sev, blocker, once, msg) ==
   [f |-> 1, line |-> line, col |-> 1, span |-> span, code |-> code, sev |-> sev, blocker |-> blocker,
-   once |-> once, msg |-> msg, child |-> FALSE]
+   once |-> once, msg |-> msg, child |-> FALSE, linked |-> TRUE]
 Child(once, msg) == [T(0, <<>>, "none", "note", FALSE, once, msg) EXCEPT !.child = TRUE]
+\* a note attached the older way: same context, same code, no parent_error
+Legacy(once, msg) == [Child(once, msg) EXCEPT !.linked = FALSE]
 Places2 == {<<1, <<1>>>>, <<2, <<2>>>>, <<1, <<1, 2>>>>, <<2, <<2, 1>>>>}
 
 \* ---- A: ignore placement on two lines (Exactness, UnusedExact)
@@ -26,13 +28,13 @@ AlphaA == {T(p[1], p[2], c, "error", FALSE, FALSE, 1) : p \in Places2, c \in {"a
           \cup {T(1, <<1>>, "truthy-bool", "error", FALSE, FALSE, 1), T(1, <<1>>, "literal-required", "error", FALSE, FALSE, 5)}
           \cup {T(l, <<l>>, "misc", "note", FALSE, FALSE, 2) : l \in {1, 2}}
           \cup {T(l, <<l>>, "misc", "note", FALSE, TRUE, 3) : l \in {1, 2}}
-          \cup {Child(FALSE, 4)}
+          \cup {Child(FALSE, 4), Legacy(FALSE, 7)}
           \cup {T(1, <<1>>, "none", "error", TRUE, FALSE, 6), T(2, <<2>>, "syntax", "error", TRUE, FALSE, 6)}
 \* the same slice with three reports (thorough tier): a smaller alphabet keeps the product in budget
 AlphaA3 == {T(p[1], p[2], c, "error", FALSE, FALSE, 1) : p \in {<<1, <<1>>>>, <<1, <<1, 2>>>>, <<2, <<2, 1>>>>}, c \in {"assignment", "method-assign"}}
            \cup {T(2, <<2>>, "misc", "error", FALSE, FALSE, 1), T(1, <<1>>, "truthy-bool", "error", FALSE, FALSE, 1),
                  T(1, <<1>>, "misc", "note", FALSE, TRUE, 3), T(2, <<2>>, "misc", "note", FALSE, TRUE, 3),
-                 Child(FALSE, 4), T(2, <<2>>, "syntax", "error", TRUE, FALSE, 6)}
+                 Child(FALSE, 4), Legacy(FALSE, 7), T(2, <<2>>, "syntax", "error", TRUE, FALSE, 6)}
 CodesNone == {[enabled |-> {}, disabled |-> {}]}
 FlagsA == {[hasMap |-> TRUE, ignoreAll |-> FALSE, warnUnused |-> w, links |-> FALSE] : w \in BOOLEAN}
 SkipNone == {{}}
